@@ -361,7 +361,7 @@ def parseRequestLine (line : Bytes) : Option StartLine :=
 
 def parseStatusLine (line : Bytes) : Option StartLine :=
   match fields line with
-  | v :: c :: r :: rs => (atoi c).map fun code => .status v code (join [32] (r :: rs))
+  | v :: c :: rs => (atoi c).map fun code => .status v code (join [32] rs)   -- the reason phrase may be empty
   | _ => none
 
 def parseStartLine (line : Bytes) : Option StartLine :=
